@@ -132,6 +132,8 @@ ApplyList(n, s) ==
                          ELSE LET s1  == PopN(s, "int", 1)
                                   pos == Clamp(s.int[1], Len(s.code))
                               IN IF ~Has(s1, "ivec", 1) THEN Unfired(s1)
+                                 \* no record to address: a failed guard (the implementation still loads the items and drops them)
+                                 ELSE IF s.code = <<>> THEN Unfired(LoadRec(s1.ivec[1], PopN(s1, "ivec", 1), <<>>).st)
                                  ELSE LET r == LoadRec(s1.ivec[1], PopN(s1, "ivec", 1), <<>>) IN
                                       IF pos < Len(r.st.code)
                                       THEN Fired(SetF(r.st, "code", ReplaceAt(r.st.code, pos + 1, RecordOf(r.items))))
